@@ -129,6 +129,7 @@ type Obligation struct {
 
 type Script struct {
 	axioms []string // spec axioms (emitted only when relevant to the unit)
+	axiomPos int    // position in lines where the axioms belong
 	lines  []string
 	obls   []*Obligation
 	nfresh int
